@@ -40,12 +40,12 @@ Hypothesis prior_nonneg : forall a, 0 <= prior a.
 Lemma mh_acc_range x' L' x L : 0 <= mh_acc q prior x' L' x L <= 1.
 Proof.
   unfold mh_acc. cbv zeta.
-  destruct (sumbool_and _ _ _ _ (Rlt_dec 0 (q x' x)) (Rlt_dec 0 (prior x))) as [[H1 H2]|H]; [|lra].
+  destruct (Rlt_dec 0 (q x' x * prior x)) as [Hd|H]; [|lra].
   split; [|apply Rmin_l].
   apply Rmin_glb; [lra|].
   apply Rmult_le_pos; [|left; apply exp_pos].
   apply Rmult_le_pos; [apply Rmult_le_pos; [left; apply q_pos|apply prior_nonneg]|].
-  left. apply Rinv_0_lt_compat. apply Rmult_lt_0_compat; assumption.
+  left. apply Rinv_0_lt_compat. exact Hd.
 Qed.
 
 Theorem mh_balance x x' L L' :
@@ -57,8 +57,8 @@ Proof.
   destruct (prior_nonneg x) as [Hx|Hx]; destruct (prior_nonneg x') as [Hx'|Hx'].
   - (* both priors positive: the Metropolis-Hastings identity *)
     unfold mh_acc. cbv zeta.
-    destruct (sumbool_and _ _ _ _ (Rlt_dec 0 (q x' x)) (Rlt_dec 0 (prior x))) as [_|[H|H]]; [|contradiction|contradiction].
-    destruct (sumbool_and _ _ _ _ (Rlt_dec 0 (q x x')) (Rlt_dec 0 (prior x'))) as [_|[H|H]]; [|contradiction|contradiction].
+    destruct (Rlt_dec 0 (q x' x * prior x)) as [_|H]; [|exfalso; apply H; apply Rmult_lt_0_compat; assumption].
+    destruct (Rlt_dec 0 (q x x' * prior x')) as [_|H]; [|exfalso; apply H; apply Rmult_lt_0_compat; assumption].
     set (p := prior x * exp L * q x' x). set (p' := prior x' * exp L' * q x x').
     assert (Hp : 0 < p) by (unfold p; repeat apply Rmult_lt_0_compat; assumption).
     assert (Hp' : 0 < p') by (unfold p'; repeat apply Rmult_lt_0_compat; assumption).
@@ -69,12 +69,12 @@ Proof.
     apply mh_core; assumption.
   - (* proposal has zero prior: never accepted; the reverse move starts from a zero-prior state *)
     rewrite <- Hx'. unfold mh_acc. cbv zeta.
-    destruct (sumbool_and _ _ _ _ (Rlt_dec 0 (q x' x)) (Rlt_dec 0 (prior x))) as [_|[H|H]]; [|contradiction|contradiction].
+    destruct (Rlt_dec 0 (q x' x * prior x)) as [_|H]; [|exfalso; apply H; apply Rmult_lt_0_compat; assumption].
     rewrite <- Hx'.
     replace (q x x' * 0 / (q x' x * prior x) * exp (L' - L)) with 0 by (field; split; lra).
     rewrite Rmin_1_0. ring.
   - rewrite <- Hx. unfold mh_acc at 2. cbv zeta.
-    destruct (sumbool_and _ _ _ _ (Rlt_dec 0 (q x x')) (Rlt_dec 0 (prior x'))) as [_|[H|H]]; [|contradiction|contradiction].
+    destruct (Rlt_dec 0 (q x x' * prior x')) as [_|H]; [|exfalso; apply H; apply Rmult_lt_0_compat; assumption].
     rewrite <- Hx.
     replace (q x' x * 0 / (q x x' * prior x') * exp (L - L')) with 0 by (field; split; lra).
     rewrite Rmin_1_0. ring.
